@@ -474,6 +474,32 @@ func c09BGV(ctx *core.RunCtx, scaleInvariant bool) *c09Scheme {
 				}
 			}
 		}
+		// the same for an encryption of zero, under the public key and under the secret key
+		for which, ez := range []*rlwe.Encryptor{encr, bgv.NewEncryptor(bp, cc.sk)} {
+			dirty := bgv.NewCiphertext(bp, 1+int(g.Next()%2), level)
+			for i := range dirty.Value {
+				catalog.FillPoly(bp.RingQ().AtLevel(level), dirty.Value[i], g)
+			}
+			st := c09Exec(func() error { return ez.EncryptZero(dirty) })
+			ctx.Count("oracle.encrypt-into-reused-output", 1)
+			if st.kind == 2 {
+				ctx.Fail("status", sc.name+"|Encryptor.EncryptZero|dirty-output-panic", "EncryptZero into a reused ciphertext of degree %d panicked: %s", dirty.Degree(), st.msg)
+				return false
+			}
+			if st.kind == 0 {
+				got := make([]uint64, len(v))
+				*dirty.MetaData = *pt.MetaData
+				err := enc.Decode(bgv.NewDecryptor(bp, cc.sk).DecryptNew(dirty), got)
+				zero := err == nil
+				for _, x := range got {
+					zero = zero && x == 0
+				}
+				if !zero {
+					ctx.Fail("result", sc.name+"|Encryptor.EncryptZero|dirty-output", "EncryptZero (key kind %d) into a reused ciphertext that held a value of degree %d does not give an encryption of zero (decode err=%v)", which, len(dirty.Value)-1, err)
+					return false
+				}
+			}
+		}
 		chh := hashCt(ct)
 		dec := bgv.NewDecryptor(bp, cc.sk)
 		// the receiver held another, possibly higher-level, plaintext before
@@ -526,7 +552,7 @@ type c09CKKSCtx struct {
 	sk     *rlwe.SecretKey
 	pk     *rlwe.PublicKey
 	evk    *rlwe.MemEvaluationKeySet
-	evkLow *rlwe.MemEvaluationKeySet // relinearization key one level below the maximum
+	evkLow *rlwe.MemEvaluationKeySet    // relinearization key one level below the maximum
 	lts    [5]cklt.LinearTransformation // without and with baby-step giant-step; then the main diagonal alone, both ways; then baby-step giant-step without any diagonal in the first giant step
 }
 
@@ -534,18 +560,20 @@ func c09CKKS(ctx *core.RunCtx) *c09Scheme {
 	ch := ctx.Ch
 	var cc *c09CKKSCtx
 	for try := 0; ; try++ {
-		spec := catalog.DrawRLWESpec(ch, catalog.SpecOpts{MinLogN: 5, MaxLogN: 7, MinQ: 3, MaxQ: 6, MinP: 1, MaxP: 2, MinBits: 40, MaxBits: 58})
+		spec := catalog.DrawRLWESpec(ch, catalog.SpecOpts{MinLogN: 5, MaxLogN: 7, MinQ: 3, MaxQ: 6, MinP: 1, MaxP: 2, MinBits: 40, MaxBits: 58, ConjInvOneIn: 4})
 		logScale := 30 + ch.Draw("log-scale", 12)
 		key := fmt.Sprintf("c09ckks/%s/S%d", spec.Key(), logScale)
 		c := ctx.Cached(key, func(*core.Xoshiro) any {
-			p, err := ckks.NewParametersFromLiteral(ckks.ParametersLiteral{LogN: spec.LogN, LogQ: spec.LogQ, LogP: spec.LogP, LogDefaultScale: logScale})
+			p, err := ckks.NewParametersFromLiteral(ckks.ParametersLiteral{LogN: spec.LogN, LogQ: spec.LogQ, LogP: spec.LogP, LogDefaultScale: logScale, RingType: spec.RingType})
 			if err != nil {
 				return err
 			}
 			kgen := rlwe.NewKeyGenerator(p)
 			sk, pk := kgen.GenKeyPairNew()
 			galEls := p.GaloisElements(c09Rotations)
-			galEls = append(galEls, p.GaloisElementForComplexConjugation())
+			if p.RingType() == ring.Standard {
+				galEls = append(galEls, p.GaloisElementForComplexConjugation())
+			}
 			galEls = append(galEls, p.GaloisElementsForInnerSum(1, 4)...)
 			galEls = append(galEls, p.GaloisElementsForInnerSum(2, 4)...)
 			// two small linear transformations (read-only) and the Galois keys they need
@@ -1046,6 +1074,24 @@ func c09CKKS(ctx *core.RunCtx) *c09Scheme {
 					_ = eb.Decode(pb, other)
 				} else {
 					_ = eb.Encode(mkVals(), ckks.NewPlaintext(cp, cp.MaxLevel()))
+				}
+				// DecodePublic (decoding with a rounding to a public precision) into a receiver longer than the slots:
+				// the entries beyond the slots are not part of the result
+				{
+					ext := make([]*bignum.Complex, n+3)
+					for i := range ext {
+						ext[i] = &bignum.Complex{new(big.Float).SetPrec(128).SetInt64(int64(1000 + i)), new(big.Float).SetPrec(128).SetInt64(-7)}
+					}
+					tail := text(ext[n:])
+					dp := c09Exec(func() error { return eb.DecodePublic(pa, ext, 20) })
+					if dp.kind == 2 {
+						ctx.Fail("status", "ckks|Encoder(prec=128).DecodePublic|panic", "DecodePublic into a receiver longer than the slots panicked: %s", dp.msg)
+						return false
+					}
+					if dp.kind == 0 && text(ext[n:]) != tail {
+						ctx.Fail("inputs", "ckks|Encoder(prec=128).DecodePublic|beyond-slots-modified", "DecodePublic into a receiver of %d entries for %d slots changed the entries beyond the slots", len(ext), n)
+						return false
+					}
 				}
 				if text(r1) != before {
 					ctx.Fail("inputs", "ckks|Encoder(prec=128).Decode|returned-values-alias-scratch", "the values that Decode returned in a %T (receiver kind %d) changed when the encoder was used again: they point into its buffers", r1, kind)
